@@ -117,12 +117,68 @@ def outcome(fn) -> tuple:
     return ("pass", None)
 
 
+# Re-use of rule objects: while a warm-up architecture is set, every rule object built by eval_rule / eval_layer_rule is
+# first applied to it (outcome ignored) and only then to the architecture under test. The verdict and message on the
+# architecture under test must not depend on that (C15), so every oracle stays exactly the same.
+_WARM_EV = None
+
+
+class warmup:
+    """with warmup({'tree': [...], 'imports': [[u, v], ...]} or None): ..."""
+
+    def __init__(self, warm):
+        self.warm = warm
+
+    def __enter__(self):
+        global _WARM_EV
+        self.prev = _WARM_EV
+        w = self.warm
+        _WARM_EV = make_evaluable(w["tree"], [tuple(e) for e in w["imports"]], w.get("level_limit")) if w else None
+        return self
+
+    def __exit__(self, *a):
+        global _WARM_EV
+        _WARM_EV = self.prev
+
+
+def _apply(build, ev) -> tuple:
+    def run():
+        rule = build()
+        if _WARM_EV is not None:
+            outcome(lambda: rule.assert_applies(_WARM_EV))
+        rule.assert_applies(ev)
+
+    return outcome(run)
+
+
 def eval_rule(rs: dict, ev) -> tuple:
-    return outcome(lambda: build_rule(rs).assert_applies(ev))
+    return _apply(lambda: build_rule(rs), ev)
 
 
 def eval_layer_rule(layer_defs, rs, ev) -> tuple:
-    return outcome(lambda: build_layer_rule(layer_defs, rs).assert_applies(ev))
+    return _apply(lambda: build_layer_rule(layer_defs, rs), ev)
+
+
+def reuse_aware(check):
+    """Decorator for check_case functions whose specs may carry 'warm': runs the check inside the warm-up context and, when
+    it reports violations, re-runs it without the warm-up to tell 'wrong anyway' from 'wrong only for a re-used rule object'."""
+
+    def wrapped(spec: dict) -> dict:
+        warm = spec.get("warm")
+        if not warm:
+            return check(spec)
+        with warmup(warm):
+            res = check(spec)
+        res["labels"] = list(res.get("labels", [])) + ["reused-rule-object"]
+        if res["violations"]:
+            plain = {v["sig"] for v in check({k: v for k, v in spec.items() if k != "warm"})["violations"]}
+            res["violations"] = [v if v["sig"] in plain else dict(v, sig=v["sig"] + "/only-with-reused-rule-object",
+                                                                  detail="rule object first applied to " + str(warm) + ": " + str(v.get("detail")))
+                                 for v in res["violations"]]
+        return res
+
+    wrapped.__name__ = getattr(check, "__name__", "check_case")
+    return wrapped
 
 
 def to_filter(kind: str, name: str):
